@@ -30,11 +30,14 @@ Inductive c03_op :=
 | C03Exists (g : Z) | C03At (g : Z) | C03Get (g : Z)   (* exists, at, operator[] *)
 | C03Size | C03SeqNo | C03Mode | C03Iterate  (* size(), seqNo(), state(), begin()..end() *)
 | C03Reverse (l : N)                         (* GlobalLookupIndexSet(set).pair(l) *)
-| C03ReverseSized (sz l : N).                (* GlobalLookupIndexSet(set, sz).pair(l) *)
+| C03ReverseSized (sz l : N)                 (* GlobalLookupIndexSet(set, sz).pair(l) *)
+| C03SetLocal (g : Z) (l : N)                (* at(g).setLocal(l)  /  at(g).local() = l  (write through the returned reference) *)
+| C03SetEq (w : N)                           (* set == set2, set != set2 for set2 = this set rebuilt (other chunk size) with perturbation w *)
+| C03Cmp (i j : nat) (g : Z).                (* the 12 IndexPair comparison operators on begin()[i], begin()[j] and g *)
 
 Inductive c03_out :=
 | C03Ok | C03InvalidState | C03Bool (b : bool) | C03PairOut (p : c03_pair) | C03RangeError
-| C03Num (z : Z) | C03ModeOut (resize : bool) | C03List (l : list c03_pair) | C03Null
+| C03Num (z : Z) | C03ModeOut (resize : bool) | C03List (l : list c03_pair) | C03Null | C03Bits (b : list bool)
 | C03Precond      (* the C++ has undefined behaviour here (end iterator dereferenced, operator[] on an empty set, table overrun) *)
 | C03Overflow     (* an `int` of the binary search would overflow *)
 | C03OutOfFuel.
@@ -188,6 +191,70 @@ Definition c03_reverse (l : list c03_pair) (i : N) : c03_out :=
 Definition c03_reverse_sized (l : list c03_pair) (sz i : N) : c03_out :=
   c03_tab_pair (c03_tab_fill (repeat None (N.to_nat sz)) l) i.
 
+(* at(g).setLocal(l): the non-const at() (binary search), then the local number of the found pair is overwritten *)
+Fixpoint c03_upd_nth (k : nat) (v : N) (l : list c03_pair) : list c03_pair :=
+  match l, k with
+  | [], _ => []
+  | p :: r, O => c03_set_loc p v :: r
+  | p :: r, S k' => p :: c03_upd_nth k' v r
+  end.
+Definition c03_setlocal (legacy : bool) (l : list c03_pair) (g : Z) (v : N) : list c03_pair * c03_out :=
+  match c03_search l g with
+  | C03BS low probe =>
+      if c03_no_entries legacy l probe then (l, C03RangeError)
+      else match nth_error l (Z.to_nat low) with
+           | None => (l, C03Precond)
+           | Some p => if c03_g p =? g then (c03_upd_nth (Z.to_nat low) v l, C03Ok) else (l, C03RangeError)
+           end
+  | r => (l, c03_bs_err r)
+  end.
+
+(* operator==(ParallelIndexSet, ParallelIndexSet): sizes, then pairwise global() and the local indices
+   (ParallelLocalIndex operator!=: local(), attribute(), isPublic(); the state is NOT compared) *)
+Definition c03_local_neq (p q : c03_pair) : bool :=
+  negb (c03_loc p =? c03_loc q)%N || negb (c03_attr p =? c03_attr q)%N || negb (Bool.eqb (c03_pub p) (c03_pub q)).
+Fixpoint c03_set_eq_loop (l l1 : list c03_pair) : bool :=
+  match l1 with
+  | [] => true
+  | q :: r1 => match l with
+               | [] => true     (* unreachable: the sizes are equal *)
+               | p :: r => if negb (c03_g q =? c03_g p) then false
+                           else if c03_local_neq p q then false else c03_set_eq_loop r r1
+               end
+  end.
+Definition c03_set_eq (l l1 : list c03_pair) : bool :=
+  if negb (length l =? length l1)%nat then false else c03_set_eq_loop l l1.
+
+(* the second set of the C03SetEq probe: a copy with one field of the LAST pair changed (w = 0: unchanged) *)
+Definition c03_perturb_pair (w : N) (p : c03_pair) : c03_pair :=
+  match w with
+  | 1 => C03Pair (c03_g p) (c03_loc p + 1) (c03_attr p) (c03_pub p) (c03_del p)
+  | 2 => C03Pair (c03_g p) (c03_loc p) (c03_attr p + 1) (c03_pub p) (c03_del p)
+  | 3 => C03Pair (c03_g p) (c03_loc p) (c03_attr p) (negb (c03_pub p)) (c03_del p)
+  | 4 => C03Pair (c03_g p + 1) (c03_loc p) (c03_attr p) (c03_pub p) (c03_del p)
+  | 6 => C03Pair (c03_g p) (c03_loc p) (c03_attr p) (c03_pub p) (negb (c03_del p))
+  | _ => p
+  end%N.
+Fixpoint c03_perturb (w : N) (l : list c03_pair) : list c03_pair :=
+  match l with
+  | [] => []
+  | [p] => if (w =? 5)%N then [] else [c03_perturb_pair w p]
+  | p :: r => p :: c03_perturb w r
+  end.
+Definition c03_seteq_out (l : list c03_pair) (w : N) : c03_out :=
+  let b := c03_set_eq l (c03_perturb w l) in C03Bits [b; negb b].
+
+(* IndexPair comparisons: all twelve compare global_ only *)
+Definition c03_cmp_bits (p q : c03_pair) (g : Z) : list bool :=
+  let a := c03_g p in let b := c03_g q in
+  [a =? b; negb (a =? b); a <? b; b <? a; a <=? b; b <=? a;
+   a =? g; negb (a =? g); a <? g; g <? a; a <=? g; g <=? a].
+Definition c03_cmp_out (l : list c03_pair) (i j : nat) (g : Z) : c03_out :=
+  match nth_error l i, nth_error l j with
+  | Some p, Some q => C03Bits (c03_cmp_bits p q g)
+  | _, _ => C03Precond
+  end.
+
 Definition c03_step (chk legacy : bool) (st : c03_state) (op : c03_op) : c03_state * c03_out :=
   let '(C03State rz local fresh seq dl) := st in
   match op with
@@ -221,6 +288,9 @@ Definition c03_step (chk legacy : bool) (st : c03_state) (op : c03_op) : c03_sta
   | C03Iterate => (st, C03List local)
   | C03Reverse l => (st, c03_reverse local l)
   | C03ReverseSized sz l => (st, c03_reverse_sized local sz l)
+  | C03SetLocal g v => let '(local', o) := c03_setlocal legacy local g v in (C03State rz local' fresh seq dl, o)
+  | C03SetEq w => (st, c03_seteq_out local w)
+  | C03Cmp i j g => (st, c03_cmp_out local i j g)
   end.
 
 Fixpoint c03_run (chk legacy : bool) (st : c03_state) (ops : list c03_op) : c03_state * list c03_out :=
